@@ -47,3 +47,15 @@ chk("C18","exploration",
  "The same adversarial objects (depths incl. 0/255/256/257/usize::MAX, reordered/duplicated/foreign paths, truncated/extended siblings) are pushed through every verifier entry point under catch_unwind, also against the root the malformed object itself hashes to (recording hasher) so that confirm_* and update verification run on malformed-but-verifying objects; any panic is a violation.",
  "Sizes bounded (<= 24 paths, <= 400 siblings). _with_index forms are called with in-range indices only (out-of-range is a documented panic). Build has debug assertions and overflow checks on.",
  "property-based testing: mutation-based generation with totality oracle (catch_unwind) (proptest)","DESIGN.md §3 C18")
+chk("C12","exploration",
+ "Several changesets (finished sessions / overlays with reverse deltas) are prepared on one generated base state and committed in generated orders and flavours (blocking, non-blocking, non-blocking while another session is alive, retried), with rollbacks in between; after every rejected or deferred attempt root, seqn, poison flag, all values, the decoded on-disk image and hash-table occupancy are compared with the state before it, and at the end (live or after a reopen) repeated rollback(1) must walk exactly the model's snapshots.",
+ "Acceptance rule: an attempt must succeed iff its base root is the current root and nothing was committed since it was prepared; must fail iff the roots differ; the case 'root current again only because an intervening commit was rolled back' is known finding KF-C12-1 and excluded from generation (counted).",
+ "property-based testing: generated competing-commit schedules + model/decoder oracle (proptest)","DESIGN.md §3 C12")
+chk("C16","exploration",
+ "After every step of generated histories the store directory is snapshotted and decoded by an independent decoder written from the documented layouts; structural well-formedness, equality of the decoded key-value multiset with the model, hash-table reachability of every stored merkle page and equality of every reachable node slot with the reference trie (absent pages only where marked elided) are checked.",
+ "Trusts the decoder (self-checked by decoding what nomt wrote and by the shadow-vs-disk comparison) and the constants listed under assumptions. Recovered crash images are decoded by the same predicates inside C03/C04 only at their default depth (values/root/proofs), not with the full decoder.",
+ "property-based testing: independent on-disk decoder as oracle over generated histories (proptest)","DESIGN.md §3 C16")
+chk("C19","exploration",
+ "Generated fill / overwrite / empty cycles with thousands of leaves; after every step the decoder computes the exact partition of ln and bbn pages below the bump into live / free-list pages / free entries (any other page is a leak) and compares hash_table_utilization() with the FULL meta bytes on disk.",
+ "Partition is exact per generated history; the 'frontier does not keep growing' clause is covered through the partition (a page below the bump is always reusable) rather than by a separate growth bound.",
+ "property-based testing: independent on-disk decoder as oracle (allocation partition) over generated histories (proptest)","DESIGN.md §3 C19")
